@@ -19,7 +19,7 @@ const STUB: [&str; 4] = [
 ];
 
 pub fn all() -> Vec<Property> {
-    vec![c01(), c02(), c06(), c07(), c08(), c09(), c10(), c11(), c12(), c13(), c14(), c15(), c16(), c17()]
+    vec![c01(), c02(), c06(), c07(), c08(), c09(), c10(), c11(), c12(), c13(), c14(), c15(), c16(), c17(), c18()]
 }
 
 fn c06() -> Property {
@@ -175,6 +175,49 @@ fn c15() -> Property {
         real_components: REAL.to_vec(),
         stub_components: STUB.to_vec(),
         expected_probes: vec!["bystander-unaffected", "answered-with-close", "answered-with-end", "ignored", "fresh-session-worked"],
+    }
+}
+
+fn c18() -> Property {
+    Property {
+        id: "C18",
+        level: "exploration",
+        variants: vec![
+            Variant {
+                name: "controller-resource-pair",
+                weight: 3,
+                make: || Box::pin(scen::c18::run_pair()),
+                max_steps: 3_000_000,
+                cases_per_seed: 1,
+                note: "real client (1-2 control links, 2 sender links) <-> real listener with a control link acceptor; seeded transaction histories",
+            },
+            Variant {
+                name: "scripted-controller-vs-listener",
+                weight: 1,
+                make: || Box::pin(scen::c18::run_scripted_controller()),
+                max_steps: 3_000_000,
+                cases_per_seed: 1,
+                note: "scripted controller <-> real listener: never-declared and finished ids, fresh ids",
+            },
+            Variant {
+                name: "controller-vs-scripted-resource",
+                weight: 1,
+                make: || Box::pin(scen::c18::run_scripted_resource()),
+                max_steps: 3_000_000,
+                cases_per_seed: 1,
+                note: "real client controller <-> scripted resource: transaction ids and fail flags on the wire, coordinator outcomes reported",
+            },
+        ],
+        quick_runs: 6_000,
+        thorough_runs: 400_000,
+        rule: "pair variant: one run = 6-15 operations drawn from declare (up to 3 live transactions over 1-2 control links), transactional post of a one- or multi-frame message on one of two links, plain send, commit, rollback, control link close/drop with live transactions, and an ending in which the remaining transactions are committed, rolled back or left to the session end; scripted variant: one of five scripts (discharge of a never-declared id, second discharge, post after discharge, post to an unknown id, 3-22 declares); all under seeded network behaviour and schedules; every run is non-trivial; distinct = distinct event-log hash",
+        assumptions: vec![
+            "isolation is checked at simulator-proven quiescence right before each discharge is issued and atomicity right after it returned; 'never' is checked at the end of the run, after session and connection are closed",
+            "an undischarged Transaction object is forgotten rather than dropped (its Drop sleeps on the real clock)",
+        ],
+        real_components: REAL.to_vec(),
+        stub_components: STUB.to_vec(),
+        expected_probes: vec!["declared", "posted", "posted-multi-frame", "isolation-checked", "commit-checked", "rollback-checked", "history-checked", "unknown-id-refused", "second-discharge-refused", "dead-transaction-post-refused", "fresh-ids-checked", "controller-wire-checked", "discharge-rejection-reported", "declare-rejection-reported"],
     }
 }
 
